@@ -21,17 +21,28 @@ Fixpoint insert_sorted (x : str) (l : list str) : list str :=
   end.
 Definition sort_strs (l : list str) : list str := fold_right insert_sorted [] l.
 
+(* sorted(iterable, key=k) for a key rendered as a str (insertion sort; stable) *)
+Section SortBy.
+  Context {A : Type} (key : A -> str).
+  Fixpoint insert_by (x : A) (l : list A) : list A :=
+    match l with
+    | [] => [x]
+    | y :: r => if str_leb (key x) (key y) then x :: l else y :: insert_by x r
+    end.
+  Definition sort_by (l : list A) : list A := fold_right insert_by [] l.
+End SortBy.
+
 (* a Python set of str, as a duplicate-free list; [set_add] = set.add *)
 Definition set_add (x : str) (s : list str) : list str := if mem_str x s then s else s ++ [x].
 
 (* ------------------------------------------------------------------------------------------------
    SITE 1  visit/endpoint/processors/parameter_processor.py
            EndpointParameterProcessor._ensure_path_variables_as_params  +  the stable sort that follows it
-           in process_parameters.
+           in process_parameters.   (since the fix of F09a the inventory lists it as sorted-wrapped)
 
      url_vars = extract_url_variables(op.path)            # a set
      updated_params = list(current_params)
-     for var in url_vars:                                  # <- hash order
+     for var in sorted(url_vars, key=lambda v: op.path.index("{" + v + "}")):     # template order
          sanitized_var_name = NameSanitizer.sanitize_method_name(var)
          if sanitized_var_name not in param_details_map:
              updated_params.append({name: sanitized_var_name, required: True, …})
@@ -40,32 +51,35 @@ Definition set_add (x : str) (s : list str) : list str := if mem_str x s then s 
      final_ordered_params.sort(key=lambda p: not p["required"])   # stable: required first
 
    [params] = (sanitised name, required) of the declared parameters (+ body parameter) in order; the keys of
-   param_details_map are exactly the names occurring in the list.  [san] = sanitize_method_name. *)
+   param_details_map are exactly the names occurring in the list.  [san] = sanitize_method_name.
+   [template] = the variables of the path in order of first appearance; the set is [url_vars] in SOME order. *)
 Definition param := (str * bool)%type.
 
 Definition ensure_step (san : str -> str) (acc : list param) (v : str) : list param :=
   if mem_str (san v) (map fst acc) then acc else acc ++ [(san v, true)].
 
-Definition ensure_path_vars (san : str -> str) (params : list param) (url_vars : list str) : list param :=
-  fold_left (ensure_step san) url_vars params.
+Definition ensure_path_vars (san : str -> str) (params : list param) (vars_in_order : list str) : list param :=
+  fold_left (ensure_step san) vars_in_order params.
 
 Definition required_first (ps : list param) : list param :=
   filter (fun p => snd p) ps ++ filter (fun p => negb (snd p)) ps.
 
+(* op.path.index("{v}") orders the variables as their first occurrences in the template *)
+Fixpoint index_of (v : str) (l : list str) : N :=
+  match l with
+  | [] => 0
+  | x :: r => if str_eqb v x then 0 else 1 + index_of v r
+  end.
+Definition template_key (template : list str) (v : str) : str := [index_of v template].
+
 (* the observable of the site: the order of the arguments in the generated signature *)
-Definition signature_order (san : str -> str) (params : list param) (url_vars : list str) : list str :=
-  map fst (required_first (ensure_path_vars san params url_vars)).
+Definition signature_order (san : str -> str) (params : list param) (template url_vars : list str) : list str :=
+  map fst (required_first (ensure_path_vars san params (sort_by (template_key template) url_vars))).
 
 (* a finite sanitiser table (what the correspondence run ships: the real sanitize_method_name on the
    variables of the case); identity outside the table *)
 Definition san_of (tbl : list (str * str)) (v : str) : str :=
   match alookup v tbl with Some s => s | None => v end.
-
-(* executable guard for F09a: at most one path variable is missing from the declared parameters *)
-Definition undeclared (san : str -> str) (params : list param) (url_vars : list str) : list str :=
-  filter (fun v => negb (mem_str (san v) (map fst params))) url_vars.
-Definition guard_F09a (san : str -> str) (params : list param) (url_vars : list str) : bool :=
-  Nat.leb (length (undeclared san params url_vars)) 1.
 
 (* ------------------------------------------------------------------------------------------------
    SITE 2  context/render_context.py  RenderContext.add_typing_imports_for_type + ImportCollector rendering
